@@ -2,6 +2,7 @@ SPECIFICATION FairSpec
 CONSTANTS MaxN = 2
           WrapperConsumes = TRUE
           ReleaseWakesWaiter = TRUE
+          SentinelOnlyIfEmpty = FALSE
           PauseCoversEncode = FALSE
 INVARIANT TypeOK
 INVARIANT C07_NeverSwallowed
